@@ -52,6 +52,40 @@ pub fn run(prop: &str, ctx: &mut Ctx) -> Result<(), String> {
             }
             ctx.count("miri-shards");
         }
+        "C14" => {
+            // every composition of two short streams into chunks (1-byte drips, cuts inside the length
+            // prefix, pulls after every push): Vec growth / split / exact-capacity remainders under Miri
+            let mut rng = ctx.rng("miri-tcp", 0);
+            let streams: [&[usize]; 3] = [&[1, 0, 2], &[0, 3], &[2, 1]];
+            for frames in streams.iter() {
+                let total: usize = frames.iter().map(|n| n + 2).sum();
+                let ncomp = 1u64 << (total - 1);
+                // each shard interprets a few compositions, chosen by the shard's own stream
+                for _ in 0..3 {
+                    let comp = rng.below(ncomp);
+                    let mut chunks = vec![];
+                    let mut run = 1;
+                    for j in 0..total - 1 {
+                        if comp >> j & 1 == 1 {
+                            chunks.push(run);
+                            run = 1;
+                        } else {
+                            run += 1;
+                        }
+                    }
+                    chunks.push(run);
+                    for pulls in [vec![], vec![true, false]] {
+                        let c = super::c14::Case { frames: frames.to_vec(), chunks: chunks.clone(), pulls, salt: comp as u8 };
+                        super::c14::check_case(ctx, &c);
+                    }
+                }
+            }
+            // the all-ones composition (1-byte drip) always
+            let c = super::c14::Case { frames: vec![1, 0, 2], chunks: vec![1; 9], pulls: vec![], salt: 7 };
+            super::c14::check_case(ctx, &c);
+            ctx.sample("miri-tcp", || json!({"frames": [1, 0, 2], "chunks": "1-byte drip + sampled compositions"}));
+            ctx.count("miri-shards");
+        }
         "C20" => {
             let mut rng = ctx.rng("miri-histories", 0);
             for i in 0..2 {
